@@ -127,6 +127,15 @@ fn run_case(idx: usize, line: &str, dir: &str, stage_bin: &str, out: &mut Out) {
     repoint(1, &outpath, true);
     repoint(2, &errpath, true);
     let fds_before = count_fds();
+    // sigblock=1: the calling thread runs with SIGPIPE blocked (as worker threads do in programs that route signals to one
+    // sigwait thread); the commands must start with an empty mask all the same, or a writer nobody reads is never ended
+    unsafe {
+        let mut set: libc::sigset_t = std::mem::zeroed();
+        libc::sigemptyset(&mut set);
+        libc::sigaddset(&mut set, libc::SIGPIPE);
+        let how = if spec.get("sigblock") == "1" { libc::SIG_BLOCK } else { libc::SIG_UNBLOCK };
+        libc::syscall(libc::SYS_rt_sigprocmask, how as libc::c_long, &set as *const libc::sigset_t, 0 as libc::c_long, 8 as libc::c_long);
+    }
     let mk = |i: usize| -> Exec {
         let e = if stages[i] == "nosuch" {
             Exec::cmd("/nonexistent/verif-no-such-program")
